@@ -175,6 +175,8 @@ class Cache:
             res.derived_from = self.derived_from | right_cache.derived_from
             res.limit = 0
             res.group_by = set()
+            # the WHERE clause of the right table of an inner join is merged
+            res.is_filtered = self.is_filtered or (node.how == "inner" and right_cache.is_filtered)
 
         elif isinstance(node, verbs.Union):
             assert right_cache is not None
